@@ -333,7 +333,14 @@ func writeLog(format int, logNum uint32, tag uint32, sizes []int) (img *logImg, 
 
 // ---------------------------------------------------------------------------------------------
 
-var scratchPool = sync.Pool{New: func() any { b := make([]byte, 0, 3*blockSize); return &b }}
+// readerSlot is reused between reads: a fresh record.Reader value (32 KiB buffer) is copied into rd
+// for every image, which avoids one large heap allocation per read.
+type readerSlot struct {
+	rd  record.Reader
+	buf []byte
+}
+
+var slotPool = sync.Pool{New: func() any { return &readerSlot{buf: make([]byte, 0, 3*blockSize)} }}
 
 // readRes is what the real reader made of an image.
 type readRes struct {
@@ -385,9 +392,11 @@ func readLog(src io.Reader, logNum uint32, want [][]byte, verbose bool) (res rea
 			res.Panic = fmt.Sprint(r)
 		}
 	}()
-	sp := scratchPool.Get().(*[]byte)
-	defer scratchPool.Put(sp)
-	r := record.NewReader(src, base.DiskFileNum(logNum))
+	slot := slotPool.Get().(*readerSlot)
+	defer slotPool.Put(slot)
+	sp := &slot.buf
+	r := &slot.rd
+	*r = *record.NewReader(src, base.DiskFileNum(logNum))
 	for {
 		res.Calls++
 		rr, err := r.Next()
